@@ -132,7 +132,7 @@ func pureConfigs(quick bool) []pureCfg {
 		pureCfg{Name: "n4", N: 4, Powers: []string{"1", "2", "3", "7", p62, p63m1},
 			Items:   mkItems([]uint64{1, 2, 3}, []int{offNow, offOne}, []int{offNow}, []int{offNow, offStale}),
 			Quorums: []string{"0.30", "0.666666666666666667"}, BondedMults: []int64{1, 3}, Interval: 60},
-		pureCfg{Name: "n5", N: 5, Powers: []string{"1", "2", "7", p62},
+		pureCfg{Name: "n5", N: 5, Powers: []string{"1", "3", p62},
 			Items:   mkItems([]uint64{1, 2, 3}, []int{offNow, offOne}, nil, []int{offNow}),
 			Quorums: []string{"0.30", "0.666666666666666667"}, BondedMults: []int64{1}, Interval: 60},
 		pureCfg{Name: "n6", N: 6, Powers: []string{"1", "3"},
